@@ -243,6 +243,12 @@ def key_of(t):
             return t
 
 
+def _strip_widen(t):
+    while isinstance(t, tuple) and t and t[0] == "cast" and t[3] in ("widen", "int"):
+        t = t[1]
+    return t
+
+
 class Facts:
     """Conjunction of unary constraints  term ∈ ISet  plus simple relational facts between terms."""
 
@@ -265,7 +271,24 @@ class Facts:
         s = self.structural(k)
         if s is not None:
             r = r.inter(s)
+        b = self._bit_lower(k)
+        if b:
+            r = r.inter(ISet.range(b, INF))
         return r
+
+    def _bit_lower(self, t):
+        """(X & m2) >= bit  when some recorded fact says (X & bit) != 0 for a single bit contained in m2"""
+        if not (isinstance(t, tuple) and t and t[0] == "bin" and t[1] == "BitAnd" and is_const(t[3]) and const_val(t[3]) > 0):
+            return 0
+        x = _strip_widen(t[2])
+        m2 = const_val(t[3])
+        best = 0
+        for k2, s2 in self.c.items():
+            if k2[0] == "bin" and k2[1] == "BitAnd" and is_const(k2[3]) and not s2.contains(0):
+                m1 = const_val(k2[3])
+                if m1 > 0 and (m1 & (m1 - 1)) == 0 and (m1 & m2) == m1 and _strip_widen(k2[2]) == x:
+                    best = max(best, m1)
+        return best
 
     def structural(self, t, depth=0):
         """value range implied by the shape of the term alone (masks, casts, table contents, lengths)"""
@@ -280,9 +303,13 @@ class Facts:
                 return ISet.range(0, 1)
             tr = ty_range(ty) if ty else ISet.all()
             if op == "BitAnd":
-                for x in (a, b):
+                for x, y in ((a, b), (b, a)):
                     if is_const(x) and const_val(x) >= 0:
-                        return ISet.range(0, const_val(x)).inter(tr)
+                        m = const_val(x)
+                        ry = self._r(y, depth)
+                        if ry is not None and not ry.empty() and ry.lo() >= 0 and ry.hi() <= m and (m & (m + 1)) == 0:
+                            return ry
+                        return ISet.range(0, m).inter(tr)
                 ra, rb = self._r(a, depth), self._r(b, depth)
                 his = [r.hi() for r in (ra, rb) if r is not None and r.lo() is not None and r.lo() >= 0 and r.hi() != INF]
                 if his:
@@ -353,9 +380,14 @@ class Facts:
         k = key_of(t)
         r = self.c.get(k)
         s = self.structural(k, depth + 1)
+        b = self._bit_lower(k)
         if r is None:
-            return s
-        return r.inter(s) if s is not None else r
+            r = s
+        elif s is not None:
+            r = r.inter(s)
+        if b:
+            r = ISet.range(b, INF) if r is None else r.inter(ISet.range(b, INF))
+        return r
 
     def constrain(self, t, s):
         """term ∈ s; returns False when contradictory."""
@@ -385,7 +417,24 @@ class Facts:
             return self.constrain(t[2], ISet.of(1)) and self.constrain(t[3], ISet.of(1))
         return True
 
+    @staticmethod
+    def _canon(op, a, b):
+        """integer canonicalisation: (x + 1) <= y  ≡  x < y ;  y < (x + 1)  ≡  y <= x ; Ge/Gt swapped to Le/Lt"""
+        if op in ("Gt", "Ge"):
+            op, a, b = CMP_SWAP[op], b, a
+        def plus1(t):
+            if t[0] == "bin" and t[1] == "Add" and is_const(t[3]) and const_val(t[3]) == 1:
+                return t[2]
+            return None
+        if op == "Le" and plus1(a) is not None:
+            return "Lt", plus1(a), b
+        if op == "Lt" and plus1(b) is not None:
+            return "Le", a, plus1(b)
+        return op, a, b
+
     def assume_cmp(self, op, a, b):
+        if not is_const(a) and not is_const(b):
+            op, a, b = self._canon(op, a, b)
         ca, cb = const_val(a) if is_const(a) else None, const_val(b) if is_const(b) else None
         if ca is not None and cb is not None:
             return bool(fold_bin(op, ca, cb))
@@ -421,6 +470,8 @@ class Facts:
 
     def decide_cmp(self, op, a, b):
         """1/0 when the comparison is decided by the facts, else None."""
+        if not is_const(a) and not is_const(b):
+            op, a, b = self._canon(op, a, b)
         sa, sb = self.get(a), self.get(b)
         if sa.empty() or sb.empty():
             return None
